@@ -64,7 +64,7 @@ CFG = {
             "over the usable region including its border (|dlon| = 3.5 deg for tmerc/utm, |lat| = 85 merc, cone-side latitudes, standard parallels, lat_0); one case = one definition pair with 8 positions, "
             "each run through A->B, B->A, A->B on ONE reused forward and ONE reused inverse transformer per line (plus a fresh-per-call control); "
             "plus WKT-defined systems (ESRI Mercator_Auxiliary_Sphere, and the testData PROJCS texts of the supported kinds); plus one `cl` line per parameterisation: the closure pair of "
-            "sr.Transformers() obtained once, 8 in-region positions, then rejected calls (poles, NaN, out of range), then the 8 positions again, against freshly obtained closures. distinct = distinct input line; non-trivial = every class",
+            "sr.Transformers() obtained once, 8 in-region positions, then rejected calls (poles, NaN, out of range), then the 8 positions again, against freshly obtained closures; plus `cc` lines (tmerc/lcc/aea/merc/longlat, fully specified, no datum shift: the definitions for which the unchanged tree is write-free per call under go -race): 8 goroutines share one transformer pair, every answer compared with the sequential one. distinct = distinct input line; non-trivial = every class",
     "timeout": {"quick": 900, "thorough": 3000},
     "trivial_class": r"^$",
 }
